@@ -53,7 +53,7 @@ def coq_input(case):
 
 def gen(rng, tier):
     cases = []
-    ndefs = 200 if tier == "quick" else 1500
+    ndefs = 320 if tier == "quick" else 1500
     for i in range(ndefs):
         doc = xmlgen.to_xml_loadable(defgen.rnd_definition(rng, apid_name="PKT_APID" if i % 5 else "APID"))
         for prm in doc["params"].values():        # spline points need not be listed in ascending order
